@@ -180,6 +180,9 @@ func (c *fnCtx) builtin(in ssa.Instruction, bi *ssa.Builtin, cc *ssa.CallCommon,
 			return iv(cur)
 		}
 	case "recover":
+		if c.root().inDefer {
+			return c.zeroVal(rt)
+		}
 		c.hasRecov = true
 		c.em.regKey("ghost:recovered", "Int", false)
 		c.upd("ghost:recovered", "", "Int", false, "", "0", "1")
